@@ -39,6 +39,9 @@ var subcmds = map[string]subcmd{}
 
 func main() {
 	zerolog.SetGlobalLevel(zerolog.Disabled)
+	if os.Getenv("VERIF_LOG") != "" { // debugging aid: the error log lines of the code under test
+		zerolog.SetGlobalLevel(zerolog.ErrorLevel)
+	}
 	if len(os.Args) < 2 {
 		names := []string{}
 		for k := range subcmds {
